@@ -60,12 +60,12 @@ Definition program_ok (cfg : config) (p : program) : bool :=
   forallb (fun kv => has_counter cfg (pg_name p) (fst kv)) (pg_counters p) &&
   forallb (fun kv => has_stack cfg (pg_name p) (stack_prefix (fst kv))) (pg_stacks p).
 
-Inductive vres := VOk | VReject | VPanic.
-(* the loop over r.Programs: a nil entry is dereferenced (panic) when reached *)
+Inductive vres := VOk | VReject.
+(* the loop over r.Programs: a nil entry is rejected (fix b5cf921) *)
 Fixpoint validate_programs (cfg : config) (ps : list (option program)) : vres :=
   match ps with
   | [] => VOk
-  | None :: _ => VPanic
+  | None :: _ => VReject
   | Some p :: ps' => if program_ok cfg p then validate_programs cfg ps' else VReject
   end.
 Definition week_ok (r : report) : bool :=
@@ -83,7 +83,7 @@ Definition object_content (marshal : report -> bytes) (r : report) : bytes := ma
 
 (* one request through RequestSize(MaxBytesReader) -> Recover -> handleUpload;
    content.Error codes: 400 for a bad body or report, 405 for the method,
-   an error without a code (storage) and a recovered panic give 500 *)
+   an error without a code (storage) gives 500 *)
 Definition handle (semver : bytes -> bool) (marshal : report -> bytes) (cfg : config)
     (method : bytes) (size_ok : bool) (decoded : option report) (m : fs) : status * fs :=
   if negb (beq method post) then (S4xx, m)
@@ -93,7 +93,6 @@ Definition handle (semver : bytes -> bool) (marshal : report -> bytes) (cfg : co
        | Some r =>
            match validate semver cfg r with
            | VReject => (S4xx, m)
-           | VPanic => (S5xx, m)
            | VOk =>
                let '(ok, m') := write m (components (object_name r)) (object_content marshal r) in
                if ok then (S2xx, m') else (S5xx, m')
@@ -120,14 +119,6 @@ Definition expected (semver : bytes -> bool) (marshal : report -> bytes) (cfg : 
       then (S2xx, snd (write m (components (object_name r)) (object_content marshal r)))
       else (S4xx, m)
   | None => (S4xx, m)
-  end.
-
-(* the one class of requests on which the code leaves the property: a null
-   entry reached by the validation loop *)
-Definition null_program_reached (semver : bytes -> bool) (cfg : config) (decoded : option report) : bool :=
-  match decoded with
-  | Some r => match validate semver cfg r with VPanic => true | _ => false end
-  | None => false
   end.
 
 (* request sequences on one bucket *)
